@@ -63,6 +63,15 @@ def main(argv):
         finally:
             shutil.rmtree(work, ignore_errors=True)
     os.makedirs(os.path.join(VERIF, "evidence"), exist_ok=True)
-    json.dump({"mutants": report, "unexpected": bad}, open(os.path.join(VERIF, "evidence", "mutants.json"), "w"), indent=1)
+    out = os.path.join(VERIF, "evidence", "mutants.json")
+    merged = report
+    if argv and os.path.exists(out):      # a filtered run updates its own rows only
+        present = {n[:-6] for n in os.listdir(mdir) if n.endswith(".patch")}
+        old = [r for r in json.load(open(out))["mutants"] if r["mutant"] in present
+               and not any(r["mutant"] == n["mutant"] and r.get("property") == n.get("property") for n in report)]
+        merged = sorted(old + report, key=lambda r: (r["mutant"], r.get("property", "")))
+    allbad = sum(1 for r in merged if r["status"] in ("SURVIVED", "HARNESS-ERROR", "patch does not apply")
+                 or (r["status"] == "caught" and r["mutant"] in EXPECTED_SURVIVORS))
+    json.dump({"mutants": merged, "unexpected": allbad}, open(out, "w"), indent=1)
     print(f"{len(report)} mutant x check pairs, {bad} unexpected outcomes")
     return 1 if bad else 0
